@@ -200,3 +200,56 @@ def promotion_summary(facts, d):
         guarded.append((name, ok))
     return {'body': b, 'promotions': guarded, 'flags': flags, 'saved': saved, 'restores_after_recursion': restore_idx is not None,
             'sets_flag_from_node': sets_from_node, 'recurses': rec_idx is not None}
+
+
+def self_uses(facts, d):
+    """how a method body uses its `self` parameter: list of (kind, detail); kind in {'field-write', 'field-read', 'passed-on', 'other'}"""
+    b = facts.body(d)
+    params = b.get('params', [])
+    if not params or params[0].get('k') != 'p_bind':
+        return []
+    me = params[0]['name']
+    uses = []
+
+    def is_self(n):
+        n = peel(n)
+        return n.get('k') == 'path' and n.get('res') == 'Local' and n.get('path') == me
+    for n in walk(b['body']):
+        k = n.get('k')
+        if k == 'assign' and peel(n['lhs']).get('k') == 'field' and is_self(peel(n['lhs'])['base']):
+            uses.append(('field-write', peel(n['lhs'])['name']))
+        elif k in ('mcall', 'call'):
+            for a in n.get('args', []):
+                if is_self(a):
+                    uses.append(('passed-on', n.get('name') or last_seg((peel(n.get('f', {})).get('path') or ''))))
+            if k == 'mcall' and is_self(n['recv']):
+                uses.append(('method', n.get('name')))
+        elif k == 'field' and is_self(n['base']):
+            uses.append(('field', n.get('name')))
+    return uses
+
+
+def same_name_delegations(facts, traits=(SER, DE)):
+    """[(method def, callee node, [(param index, arg index)])] for methods of workspace impls of serde traits that call a method of the
+    same name and pass their own parameters on"""
+    out = []
+    for imp in facts.impls:
+        if imp.get('trait') not in traits:
+            continue
+        for it in imp['items']:
+            d = it['def']
+            if it['kind'] != 'AssocFn' or not facts.has_body(d):
+                continue
+            b = facts.body(d)
+            if b.get('x'):
+                continue
+            pnames = [p.get('name') if p.get('k') == 'p_bind' else None for p in b.get('params', [])][1:]
+            for n in walk(b['body']):
+                if n.get('k') == 'mcall' and n.get('name') == it['name']:
+                    pairs = []
+                    for ai, a in enumerate(n.get('args', [])):
+                        a = peel(a)
+                        if a.get('k') == 'path' and a.get('res') == 'Local' and a.get('path') in pnames:
+                            pairs.append((pnames.index(a['path']), ai))
+                    out.append((d, imp['self_ty'], it['name'], n, pairs, pnames))
+    return out
